@@ -567,10 +567,11 @@ class Device(nfc.clf.device.Device):
                     raise nfc.clf.BrokenLinkError("RFOFF")
                 try:
                     brty, data = data.split()
+                    brty = brty.decode("ascii")
+                    data = bytearray(unhexlify(data))
                 except ValueError:
+                    # also a non-ascii bitrate or non-hexadecimal data
                     raise nfc.clf.TransmissionError("no data")
-                brty = brty.decode("ascii")
-                data = bytearray(unhexlify(data))
                 self.rcvd_data += len(data)
                 if brty in brty_list:
                     return brty, data, addr
